@@ -544,3 +544,69 @@ func pauseEnd() {
 	pz.c = nil
 	resume()
 }
+
+// vLongNames: names of every wire length from 240 to the maximum of 255 octets, from clients without a known address, with an
+// IPv4 and with an IPv6 address, ECS on (the upstream request carries the question, the OPT record and the client-subnet option:
+// its largest forms) and off, through the tcp seam of the real router with a catch-all forward rule: the question reaches the
+// upstream once, as it was asked, and the upstream's answer comes back. Called inside a bubble with hmu held.
+func vLongNames(rep *report.R, prop string) {
+	for _, ecs := range []bool{true, false} {
+		cfg := &Config{Rules: []RuleConfig{{Forward: "u1"}}}
+		cfg.ECS.Enabled = ecs
+		v, err := vNewRouter(cfg, "u1")
+		if err != nil {
+			rep.Violate(prop+":long-names:router-start", err.Error(), nil)
+			return
+		}
+		u := v.ups["u1"]
+		u.Auto = func(q *upQuery) *upResult {
+			if q.Msg == nil {
+				return &upResult{err: errScripted}
+			}
+			return &upResult{wire: env.Answer(q.Msg, 1, 60).Encode(false)}
+		}
+		srv := v.newTCPServer(0, 300*time.Second)
+		n := 0
+		for _, peer := range []netip.AddrPort{netip.MustParseAddrPort("198.51.100.9:4000"), netip.MustParseAddrPort("[2001:db8:1:2:3:4:5:6]:4000")} {
+			for wire := 240; wire <= 255; wire++ {
+				// labels of 63 octets (64 on the wire), a last label that makes up the rest, the root octet
+				var labels []string
+				rest := wire - 1
+				for rest > 0 {
+					l := min(63, rest-1)
+					if l <= 0 {
+						break
+					}
+					labels = append(labels, strings.Repeat(string(rune('a'+len(labels))), l))
+					rest -= l + 1
+				}
+				name := refdns.N(labels...)
+				n++
+				desc := fmt.Sprintf("name of %d wire octets from client %s, ecs=%v", name.WireLen(), peer.Addr(), ecs)
+				rep.Eval("long-names: " + desc)
+				pc := v.tcpClient(srv, peer, vLocalV4)
+				pc.SendMsg(refdns.Query(uint16(n), name, 1, 1))
+				wait()
+				rs := pc.Responses()
+				qs := u.Queries()
+				if len(qs) != n || qs[n-1].Msg == nil || len(qs[n-1].Msg.Q) != 1 || !qs[n-1].Msg.Q[0].Name.Equal(name) {
+					rep.Violate(prop+":long-names:not-forwarded", fmt.Sprintf("the upstream saw %d queries after %d client queries (the last one %v): %s", len(qs), n, func() any {
+						if len(qs) > 0 && qs[len(qs)-1].Msg != nil {
+							return qs[len(qs)-1].Msg.Q
+						}
+						return nil
+					}(), desc), nil)
+					pc.Close()
+					v.Close()
+					return
+				}
+				if len(rs) != 1 || rs[0] == nil || rs[0].RCode() != 0 || len(rs[0].An) != 1 {
+					rep.Violate(prop+":long-names:not-answered", fmt.Sprintf("%d responses (%v): %s", len(rs), rs, desc), nil)
+				}
+				pc.Close()
+			}
+		}
+		v.Close()
+		wait()
+	}
+}
